@@ -1458,3 +1458,59 @@ M("C19-extract-keyed-by-id", "C19", "R19.3", PD,
 M("C15-priority-rule-or-default", "C15", "R16.2", WF,
   """EVERY:j.get('worker_priority_rule', -1)""",
   """j.get('worker_priority_rule') or -1""")
+# ---------------------------------------------------------------------------------------- round 7 rules
+M("C04-add-worker-keeps-old-team-id", "C04", "R4.5", TM,
+  """        worker.team_id = self.ID
+        self.worker_list.append(worker)""",
+  """        if worker.team_id is None:
+            worker.team_id = self.ID
+        self.worker_list.append(worker)""")
+M("C05-append-child-task-skips-known-task", "C05", "R5.6", WF,
+  """        self.task_list.append(task)
+        task.parent_workflow = self""",
+  """        if task.parent_workflow is self:
+            return
+        self.task_list.append(task)
+        task.parent_workflow = self""")
+M("C06-workers-only-from-linked-teams", "C06", "R6.7", PJ,
+  """list(map(lambda team: team.worker_list, self.organization.team_list))""",
+  """list(map(lambda team: team.worker_list, [tm for tm in self.organization.team_list if len(tm.targeted_task_list) > 0 and tm.parent_team is None]))""")
+M("C08-facility-record-default-shared", "C08", "R0.1", FA,
+  """cost_list=None, assigned_task_list=None, assigned_task_id_record=None):""",
+  """cost_list=None, assigned_task_list=None, assigned_task_id_record=[]):""",
+  FA,
+  """        if assigned_task_id_record is not None:
+            self.assigned_task_id_record = assigned_task_id_record
+        else:
+            self.assigned_task_id_record = []""",
+  """        self.assigned_task_id_record = assigned_task_id_record""")
+M("C09-gantt-reverses-task-list", "C09", "R9.8", WF,
+  """        if view_auto_task:
+            target_task_list = self.task_list
+        yticks = [10 * (n + 1) for n in range(len(target_task_list))]""",
+  """        if view_auto_task:
+            target_task_list = self.task_list
+        target_task_list.reverse()
+        yticks = [10 * (n + 1) for n in range(len(target_task_list))]""")
+M("C10-pert-reads-due-time", "C10", "R10.7", WF,
+  """                    task.state = BaseTaskState.FINISHED
+                    newly_finished = True""",
+  """                    task.state = BaseTaskState.FINISHED
+                    newly_finished = task.due_time != time""")
+M("C11-fifo-counts-trailing-ready-only", "C11", "R11.7", PR,
+  """            num = len([i for i in range(len(k)) if k[i].name == 'READY'])""",
+  """            num = 0
+            for s0 in reversed(k):
+                if s0.name != 'READY':
+                    break
+                num += 1""")
+M("C12-finish-does-not-zero-remaining", "C12", "R12.4", WF,
+  """                    newly_finished = True
+                    task.remaining_work_amount = 0.0""",
+  """                    newly_finished = True""")
+M("C18-inserted-id-record-is-sliced", "C18", "R18.3", WK,
+  """self.assigned_task_id_record.insert(step_time, self.assigned_task_id_record[step_time - 1])""",
+  """self.assigned_task_id_record.insert(step_time, self.assigned_task_id_record[step_time - 1][:])""")
+M("C20-subproject-ctor-drops-progress-rate", "C20", "R16.7", SP,
+  """default_work_amount=default_work_amount, work_amount_progress_of_unit_step_time=work_amount_progress_of_unit_step_time, input_task_list=input_task_list""",
+  """default_work_amount=default_work_amount, input_task_list=input_task_list""")
